@@ -11,14 +11,14 @@ mkdir -p /tmp/wt/confirm
 git -C /repo worktree add --detach "$W" HEAD >/dev/null 2>&1 || { echo "worktree failed"; exit 3; }
 cp "$OUT/demo_$K.py" "$W/demo_seed.py"
 cd "$W"
-PYTHONPATH="$W" timeout 600 /venv/bin/python demo_seed.py > /tmp/wt/confirm/${ID}_${K}.clean.log 2>&1; RC_CLEAN=$?
+OMP_NUM_THREADS=2 PYTHONPATH="$W" timeout 1200 /venv/bin/python demo_seed.py > /tmp/wt/confirm/${ID}_${K}.clean.log 2>&1; RC_CLEAN=$?
 APPLY=ok
 git apply "$OUT/patch_$K.diff" 2>/dev/null || git apply --3way "$OUT/patch_$K.diff" 2>/dev/null || APPLY=fail
-PYTHONPATH="$W" timeout 600 /venv/bin/python demo_seed.py > /tmp/wt/confirm/${ID}_${K}.patched.log 2>&1; RC_PATCHED=$?
+OMP_NUM_THREADS=2 PYTHONPATH="$W" timeout 1200 /venv/bin/python demo_seed.py > /tmp/wt/confirm/${ID}_${K}.patched.log 2>&1; RC_PATCHED=$?
 RC_TESTS=-1; NPASS=0; NFAIL=0
 if [ "$TESTS" = "--tests" ] && [ "$APPLY" = ok ]; then
   rm -f demo_seed.py
-  PYTHONPATH="$W" timeout 1800 /venv/bin/python -m pytest -q -p no:cacheprovider --timeout=900 tests > /tmp/wt/confirm/${ID}_${K}.tests.log 2>&1; RC_TESTS=$?
+  OMP_NUM_THREADS=2 PYTHONPATH="$W" timeout 5400 /venv/bin/python -m pytest -q -p no:cacheprovider --timeout=900 tests > /tmp/wt/confirm/${ID}_${K}.tests.log 2>&1; RC_TESTS=$?
   NFAIL=$(grep -cE "^FAILED|^ERROR" /tmp/wt/confirm/${ID}_${K}.tests.log)
   FAILED=$(grep -E "^FAILED|^ERROR" /tmp/wt/confirm/${ID}_${K}.tests.log | grep -vE "test_eda\[DPPEnv\]|test_eda\[MDPPEnv\]|test_am_policy\[dpp\]|test_am_policy\[mdpp\]" | wc -l)
 else
